@@ -4,7 +4,7 @@ From Coq Require Import Init.Byte.
 From Kardia Require Import C16.Model.
 Import ListNotations.
 Local Open Scope N_scope.
-Ltac Zify.zify_post_hook ::= Z.div_mod_to_equations.
+Ltac Zify.zify_post_hook ::= Z.to_euclidean_division_equations.
 
 (** ** bytes *)
 Lemma bN_lt (b : byte) : bN b < 256.
